@@ -106,7 +106,7 @@ def gen_programs(rnd, n, depth=3):
     atoms = ["1", "2", "+", "n", "`ab`", "\\c", "‛xy", "»ab»", "«cd«", "⁺q", "→v", "←v", "d", "kA", "X", "x"]
 
     def prog(d):
-        k = rnd.randrange(1, 4)
+        k = rnd.choice([0, 1, 1, 2, 2, 3])  # empty branches are legal programs too
         return "".join(item(d) for _ in range(k))
 
     def item(d):
